@@ -46,6 +46,8 @@ type facts struct {
 	LbWriterMethods     []string // methods responseWriter defines itself (everything else is the embedded writer's)
 	LbWriterForwards    bool     // responseWriter.WriteHeader passes its argument on unchanged
 	HandlerOrder        []string // buildHandler: inside-out composition
+	TimeoutFields       [][3]string // function, "Type.Field", "ok" | "UNBOUNDED:<expr>"
+	HandlerTimeoutApplied bool     // buildHandler wraps the chain with withHandlerTimeout(handler, <defaulted var>)
 	Problems        []string
 }
 
@@ -553,7 +555,10 @@ func main() {
 								txt = sel.Sel.Name
 							}
 						}
-						if txt == "BuildChain" || txt == "RequestContextMiddleware" {
+						if id, ok := r.Fun.(*ast.Ident); ok {
+							txt = id.Name
+						}
+						if txt == "BuildChain" || txt == "RequestContextMiddleware" || txt == "withHandlerTimeout" {
 							f.HandlerOrder = append(f.HandlerOrder, txt)
 						}
 					}
@@ -568,6 +573,102 @@ func main() {
 		} else {
 			f.Problems = append(f.Problems, "buildHandler not found")
 		}
+	}
+
+	// C03: every timeout of the backend transport, its dialer and the front server is set to a
+	// value that cannot be zero: a variable guarded by `if v == 0 { v = <default> }` or a constant
+	{
+		mp := parseDir(filepath.Join(repo, "cmd/helios"))
+		check := func(fn string, fd *ast.FuncDecl) map[string]bool {
+			defaulted := map[string]bool{}
+			if fd == nil {
+				f.Problems = append(f.Problems, fn+" not found")
+				return defaulted
+			}
+			ast.Inspect(fd, func(n ast.Node) bool {
+				ifs, ok := n.(*ast.IfStmt)
+				if !ok {
+					return true
+				}
+				be, ok := ifs.Cond.(*ast.BinaryExpr)
+				if !ok || be.Op != token.EQL {
+					return true
+				}
+				id, ok1 := be.X.(*ast.Ident)
+				lit, ok2 := be.Y.(*ast.BasicLit)
+				if !ok1 || !ok2 || lit.Value != "0" {
+					return true
+				}
+				for _, st := range ifs.Body.List {
+					if as, ok := st.(*ast.AssignStmt); ok && len(as.Lhs) == 1 {
+						if l, ok := as.Lhs[0].(*ast.Ident); ok && l.Name == id.Name {
+							defaulted[id.Name] = true
+						}
+					}
+				}
+				return true
+			})
+			ast.Inspect(fd, func(n ast.Node) bool {
+				cl, ok := n.(*ast.CompositeLit)
+				if !ok {
+					return true
+				}
+				tn := ""
+				if sel, ok := cl.Type.(*ast.SelectorExpr); ok {
+					if x, ok := sel.X.(*ast.Ident); ok {
+						tn = x.Name + "." + sel.Sel.Name
+					}
+				}
+				if tn != "http.Transport" && tn != "net.Dialer" && tn != "http.Server" {
+					return true
+				}
+				for _, el := range cl.Elts {
+					kv, ok := el.(*ast.KeyValueExpr)
+					if !ok {
+						continue
+					}
+					k, ok := kv.Key.(*ast.Ident)
+					if !ok || !(strings.HasSuffix(k.Name, "Timeout") || k.Name == "Timeout") {
+						continue
+					}
+					verdict := "UNBOUNDED"
+					switch v := kv.Value.(type) {
+					case *ast.Ident:
+						if defaulted[v.Name] {
+							verdict = "ok"
+						} else {
+							verdict = "UNBOUNDED:" + v.Name
+						}
+					case *ast.BinaryExpr: // 10 * time.Second
+						if bl, ok := v.X.(*ast.BasicLit); ok && bl.Value != "0" {
+							verdict = "ok"
+						}
+					}
+					f.TimeoutFields = append(f.TimeoutFields, [3]string{fn, tn + "." + k.Name, verdict})
+				}
+				return true
+			})
+			return defaulted
+		}
+		check("AddBackend", findFunc(lb, "LoadBalancer", "AddBackend"))
+		check("createHTTPServer", findFunc(mp, "", "createHTTPServer"))
+		bh := findFunc(mp, "", "buildHandler")
+		bd := check("buildHandler", bh)
+		if bh != nil {
+			ast.Inspect(bh, func(n ast.Node) bool {
+				if ce, ok := n.(*ast.CallExpr); ok {
+					if id, ok := ce.Fun.(*ast.Ident); ok && id.Name == "withHandlerTimeout" && len(ce.Args) == 2 {
+						if a, ok := ce.Args[1].(*ast.Ident); ok && bd[a.Name] {
+							f.HandlerTimeoutApplied = true
+						}
+					}
+				}
+				return true
+			})
+		}
+		sort.Slice(f.TimeoutFields, func(i, j int) bool {
+			return f.TimeoutFields[i][0]+f.TimeoutFields[i][1] < f.TimeoutFields[j][0]+f.TimeoutFields[j][1]
+		})
 	}
 
 	// registered plugins
@@ -641,6 +742,15 @@ func main() {
 	fmt.Fprintf(&sb, "def lbWriterMethods : List String := %s\n", q(f.LbWriterMethods))
 	fmt.Fprintf(&sb, "def lbWriterForwards : Bool := %s\n", b(f.LbWriterForwards))
 	fmt.Fprintf(&sb, "def handlerOrder : List String := %s\n", q(f.HandlerOrder))
+	sb.WriteString("def timeoutFields : List (String × String × String) := [")
+	for i, t := range f.TimeoutFields {
+		if i > 0 {
+			sb.WriteString(", ")
+		}
+		fmt.Fprintf(&sb, "(%q, %q, %q)", t[0], t[1], t[2])
+	}
+	sb.WriteString("]\n")
+	fmt.Fprintf(&sb, "def handlerTimeoutApplied : Bool := %s\n", b(f.HandlerTimeoutApplied))
 	fmt.Fprintf(&sb, "def extractionProblems : List String := %s\n", q(f.Problems))
 	sb.WriteString("\nend Helios.Facts\n")
 	fmt.Print(sb.String())
